@@ -66,6 +66,26 @@ fn gamma(a: f64) -> f64 {
     }
 }
 
+/// x! as a double: the product 2 * 3 * ... * x for a non-negative integral x (as
+/// eval_f64 does), gamma(x + 1) otherwise.
+fn float_factorial(x: f64) -> f64 {
+    if x >= 0.0 && x % 1.0 == 0.0 {
+        if x > 170.0 {
+            // 171! and above exceed f64::MAX
+            return f64::INFINITY;
+        }
+        let mut factorial_result = 1.0;
+        for i in 2..=(x as usize) {
+            #[cfg(feature = "verif_hooks")]
+            crate::verif_hooks::tick();
+            factorial_result *= i as f64;
+        }
+        factorial_result
+    } else {
+        gamma(x + 1.0)
+    }
+}
+
 /// Principal branch of the Lambert W function by Halley's iteration, run until
 /// it converges (at most 64 steps).
 fn lambert_w(x: f64) -> f64 {
@@ -292,10 +312,10 @@ pub fn eval(expr: Node) -> Result<Number, Box<dyn error::Error>> {
                         }
                         Ok(Number::Integer(factorial_result))
                     } else {
-                        Ok(Number::Float(gamma((n as f64) + 1.0)))
+                        Ok(Number::Float(float_factorial(n as f64)))
                     }
                 }
-                Number::Float(n) => Ok(Number::Float(gamma(n + 1.0))),
+                Number::Float(n) => Ok(Number::Float(float_factorial(n))),
             }
         }
         LambertW(expr) => {
